@@ -74,13 +74,17 @@ class Event:
 
 
 class _State:
-    __slots__ = ("env", "pc")
+    """env: local name -> term; pc: path condition; ov: flow-sensitive attribute overlay
+    ((base term, attribute) -> term) for objects that are not heap-allocated by the run"""
+    __slots__ = ("env", "pc", "ov")
 
-    def __init__(self, env, pc):
+    def __init__(self, env, pc, ov=None):
         self.env, self.pc = env, pc
+        self.ov = {} if ov is None else ov
 
     def fork(self, extra=None):
-        return _State(dict(self.env), self.pc + ((extra,) if extra is not None else ()))
+        return _State(dict(self.env), self.pc + ((extra,) if extra is not None else ()),
+                      dict(self.ov))
 
 
 class _Activation:
@@ -88,6 +92,7 @@ class _Activation:
         self.fi = fi
         self.entry_pc = entry_pc
         self.returns = []     # (pc, term)
+        self.return_ovs = []  # overlay snapshot at each return
         self.depth = depth
 
 
@@ -112,7 +117,6 @@ class Interp:
         self.events = []
         self.heap = {}
         self.loops = {}
-        self.overlay = {}
         self._ids = itertools.count(1)
         self._seq = itertools.count(1)
         self.stack = []
@@ -221,6 +225,7 @@ class Interp:
         if isinstance(s, ast.Return):
             v = self._eval(s.value, st, act) if s.value is not None else CONST_NONE
             act.returns.append((st.pc, v))
+            act.return_ovs.append(dict(st.ov))
             if act.depth == 0:
                 self._emit("return", st, s, act, value=v)
             return None
@@ -314,6 +319,11 @@ class Interp:
                 env[k] = ("phi", c, a, ("undef", k))
             else:
                 env[k] = ("phi", c, a, b)
+        ov = {}
+        for k in set(s1.ov) | set(s2.ov):
+            a = s1.ov.get(k, ("attr", k[0], k[1]))
+            b = s2.ov.get(k, ("attr", k[0], k[1]))
+            ov[k] = a if a == b else ("phi", c, a, b)
         # both branches fall through: the condition is no longer part of the pc, but
         # what either branch established (e.g. an inner early exit) is kept as a disjunction
         e1 = s1.pc[len(base_pc):]
@@ -322,7 +332,7 @@ class Interp:
             pc = base_pc
         else:
             pc = base_pc + (("fact", ("or", (_conj(e1), _conj(e2)))),)
-        return _State(env, pc)
+        return _State(env, pc, ov)
 
     def _assigned_names(self, stmts):
         out = set()
@@ -365,6 +375,7 @@ class Interp:
             fin = end.env.get(n) if end is not None else None
             st.env[n] = ("loopout", n, lid, saved[n] if saved[n] is not None else ("undef", n),
                          fin if fin is not None else ("undef", n))
+        self._loop_ov(st, end, lid)
         # loop target variables stay bound to the (last) element
         for n in self._assigned_names([_expr_stmt(s.target)]):
             st.env[n] = body_st.env.get(n, ("undef", n))
@@ -404,8 +415,19 @@ class Interp:
             fin = end.env.get(n) if end is not None else None
             st.env[n] = ("loopout", n, lid, saved[n] if saved[n] is not None else ("undef", n),
                          fin if fin is not None else ("undef", n))
+        self._loop_ov(st, end, lid)
         st.pc = post_pc
         return st
+
+    def _loop_ov(self, st, end, lid):
+        """attribute stores made inside a loop body are visible after the loop"""
+        if end is None:
+            return
+        for k, v in end.ov.items():
+            old = st.ov.get(k)
+            if old != v:
+                st.ov[k] = ("loopout", f"{k[1]}", lid,
+                            old if old is not None else ("attr", k[0], k[1]), v)
 
     # =========================================================== assignment
     def _assign(self, target, v, st, act, node, aug=None):
@@ -463,12 +485,7 @@ class Interp:
             return
         self._emit("store", st, node, act, target="attr", base=base, name=name, value=v, aug=aug,
                    fresh=False)
-        key = (base, name)
-        if st.pc:
-            old = self.overlay.get(key, ("attr", base, name))
-            self.overlay[key] = ("phi", _conj(st.pc), v, old)
-        else:
-            self.overlay[key] = v
+        st.ov[(base, name)] = v
 
     # ============================================================ expressions
     def _proj(self, v, i):
@@ -580,8 +597,8 @@ class Interp:
             return self._resolved_to_term(r, self.repo.modules[base[1]], node, name)
         if k == "ext":
             return ("ext", base[1] + "." + name)
-        if (base, name) in self.overlay:
-            return self._under(self.overlay[(base, name)], st.pc)
+        if (base, name) in st.ov:
+            return self._under(st.ov[(base, name)], st.pc)
         if k == "new":
             h = self.heap[base[2]]
             if name in h["fields"]:
@@ -945,7 +962,7 @@ class Interp:
             return a if a == b else ("phi", ft[1], a, b)
         if k == "cases":
             return mk_cases((pc, self._call_term(t, args, kwargs, star, dstar,
-                                                 _State(st.env, st.pc + tuple(pc)), act, e))
+                                                 _State(st.env, st.pc + tuple(pc), st.ov), act, e))
                             for pc, t in ft[1])
         if k == "classref":
             self.resolved_calls += 1
@@ -1210,11 +1227,28 @@ class Interp:
                    args=tuple(args), kwargs=tuple(sorted(kwargs.items())))
         self.stack.append(callee_act)
         try:
-            end = self._block(fi.node.body, _State(env, st.pc), callee_act)
+            end = self._block(fi.node.body, _State(env, st.pc, dict(st.ov)), callee_act)
         finally:
             self.stack.pop()
         self._emit("leave", st, node, act, callee=fi.fq)
         rets = callee_act.returns
+        # attribute overlay after the call: merge of the callee's exits
+        exits = [(pc, ov) for (pc, _), ov in zip(rets, callee_act.return_ovs)]
+        if end is not None:
+            exits.append((end.pc, end.ov))
+        if len(exits) == 1:
+            st.ov = dict(exits[0][1])
+        elif exits:
+            n0 = len(st.pc)
+            merged = dict(exits[-1][1])
+            for pc_i, ov_i in reversed(exits[:-1]):
+                rel = tuple(c for c in pc_i[n0:] if c[0] != "inloop")
+                for k in set(merged) | set(ov_i):
+                    a = ov_i.get(k, ("attr", k[0], k[1]))
+                    b = merged.get(k, ("attr", k[0], k[1]))
+                    if a != b:
+                        merged[k] = ("phi", _conj(rel), a, b) if rel else a
+            st.ov = merged
         # facts established by asserts on the callee's single exit hold in the caller afterwards
         exit_pc = None
         if end is not None and not rets:
